@@ -1,3 +1,76 @@
-import HtpModel.Lemmas.Conn
+/- C03 — segmentation invariance: TCP chunking does not change the parse.
+
+   Proved here, for every chunk content, cursor position, configuration and amount of previously buffered data (no bounds):
+   the "field under construction" of a direction (`Dir.pending`: what earlier calls set aside, then the unconsumed part of the
+   current chunk) is what state functions receive as their data (`C03_consolidate_pending`); it is unchanged by the end-of-call
+   buffering (`C03_buffer_pending`) and by the arrival of the next chunk (`C03_next_chunk_pending`), and grows by exactly the byte
+   copied (`C03_copyByte_pending`). On top of these, for the request line: `C03_reqLine_found`, `C03_reqLine_more` and the
+   composition `C03_request_line_cut` - a line cut anywhere into two calls reaches `reqLineComplete` with exactly the bytes it has
+   when it arrives in one call.
+   NOT proved: the same composition for header lines, chunk-size lines and the response side, and the glue of the driver loop
+   around them (decided by correspondence + the canonical-run oracle of checks/c03.py, which found S14 and S15, repaired in
+   /repo, and S1, a known finding). -/
+import HtpModel.Lemmas.Segment
+
 namespace Htp.C03
+open Htp Htp.Conn Htp.Gen
+
+/-- **C03 (buffering keeps the field).** Setting aside the unconsumed tail of a chunk at the end of a call does not change the bytes
+    of the field under construction, and leaves nothing unconsumed. -/
+theorem C03_buffer_pending (d d' : Dir) (hard : Nat) (skip : Bool) (hs : d.Sane) (h : d.buffer hard skip = some d') :
+    d'.pending = d.pending ∧ d'.consume = d'.read :=
+  seg_buffer_pending d d' hard skip hs h
+
+/-- **C03 (the next chunk).** When a call ended with nothing unconsumed, handing the parser the next chunk leaves the field under
+    construction as it was. -/
+theorem C03_next_chunk_pending (c : Conn) (data : Bytes) (h : c.inn.consume = c.inn.read) :
+    (reqStoreChunk (some data) data.length c).inn.pending = c.inn.buf.getD [] ∧
+    c.inn.pending = c.inn.buf.getD [] :=
+  seg_next_chunk_pending c data h
+
+/-- **C03 (consolidation).** What a state function receives as "the data of this field" is exactly the field under construction. -/
+theorem C03_consolidate_pending (d d' : Dir) (data : Bytes) (hard : Nat) (skip : Bool) (hs : d.Sane)
+    (h : d.consolidate hard skip = some (d', data)) : data = d.pending ∧ d'.pending = d.pending :=
+  seg_consolidate_pending d d' data hard skip hs h
+
+/-- **C03 (one more byte).** Copying the next byte of the chunk extends the field under construction by exactly that byte. -/
+theorem C03_copyByte_pending (d d' : Dir) (b : UInt8) (hs : d.Sane) (h : d.copyByte = some (d', b)) :
+    d'.pending = d.pending ++ [b] ∧ d'.Sane ∧ d.cur[d.read.toNat]? = some b :=
+  seg_copyByte_pending d d' b hs h
+
+/-- **C03 (request line, the line ends in this chunk).** If the unread part of the chunk is `pre ++ LF :: rest` with no LF in
+    `pre`, the request-line state hands `reqLineComplete` a direction whose field under construction is what was pending before
+    the call followed by `pre` and the LF - however many earlier chunks contributed to what was pending. -/
+theorem C03_reqLine_found (cfg : Cfg) (pre rest : Bytes) (fuel : Nat) (c : Conn) (hs : c.inn.Sane) (hst : (c.inn.status == STREAM_CLOSED) = false)
+    (hcur : c.inn.cur.drop c.inn.read.toNat = pre ++ LF :: rest) (hpre : ∀ b ∈ pre, b ≠ LF) (hf : pre.length + 1 ≤ fuel) :
+    ∃ d', reqLineLoop cfg fuel c = reqLineComplete cfg { c with inn := d' } ∧
+      d'.pending = c.inn.pending ++ pre ++ [LF] ∧ d'.Sane :=
+  seg_reqLine_found cfg pre rest fuel c hs hst hcur hpre hf
+
+/-- **C03 (request line, the chunk ends first).** If the unread part of the chunk has no LF, the request-line state runs out of
+    bytes (HTP_DATA_BUFFER) with the whole unread part added to the field under construction - nothing is parsed, no callback runs. -/
+theorem C03_reqLine_more (cfg : Cfg) (tail : Bytes) (fuel : Nat) (c : Conn) (hs : c.inn.Sane) (hst : (c.inn.status == STREAM_CLOSED) = false)
+    (hcur : c.inn.cur.drop c.inn.read.toNat = tail) (hnl : ∀ b ∈ tail, b ≠ LF) (hf : tail.length + 1 ≤ fuel) :
+    ∃ d', reqLineLoop cfg fuel c = ({ c with inn := d' }, .dataBuffer) ∧ d'.pending = c.inn.pending ++ tail ∧ d'.Sane ∧ d'.read = d'.len ∧
+      d'.status = c.inn.status :=
+  seg_reqLine_more cfg tail fuel c hs hst hcur hnl hf
+
+/-- **C03 (a request line cut in two).** Feed the request-line state a chunk `a` without LF, let the driver set the tail aside
+    (`Dir.buffer`, accepted by the hard limit), hand over the next chunk `b ++ LF :: rest`: `reqLineComplete` then receives exactly
+    the bytes it receives when `a ++ b ++ LF :: rest` arrives as one chunk - what was pending, then `a ++ b`, then the LF. -/
+theorem C03_request_line_cut (cfg : Cfg) (a b rest : Bytes) (c : Conn) (hs : c.inn.Sane) (hst : (c.inn.status == STREAM_CLOSED) = false)
+    (hcur : c.inn.cur.drop c.inn.read.toNat = a) (ha : ∀ x ∈ a, x ≠ LF) (hb : ∀ x ∈ b, x ≠ LF)
+    (hlen : ((b ++ LF :: rest).length : Int) < 9223372036854775808) :
+    ∃ d1, reqLineLoop cfg (a.length + 1) c = ({ c with inn := d1 }, .dataBuffer) ∧
+      ∀ d2, d1.buffer cfg.fieldLimitHard true = some d2 →
+        ∃ d4, reqLineLoop cfg (b.length + 1) (reqStoreChunk (some (b ++ LF :: rest)) (b ++ LF :: rest).length { c with inn := d2 }) =
+            reqLineComplete cfg { reqStoreChunk (some (b ++ LF :: rest)) (b ++ LF :: rest).length { c with inn := d2 } with inn := d4 } ∧
+          d4.pending = c.inn.pending ++ (a ++ b) ++ [LF] :=
+  seg_request_line_cut cfg a b rest c hs hst hcur ha hb hlen
+
+/-- non-vacuity: a direction in the middle of a real chunk meets `Dir.Sane` and has the expected field under construction -/
+example : ({ cur := (b!"GET / HT"), curNull := false, len := 8, read := 5, consume := 0, buf := some (b!"xx") } : Dir).Sane ∧
+    ({ cur := (b!"GET / HT"), curNull := false, len := 8, read := 5, consume := 0, buf := some (b!"xx") } : Dir).pending = (b!"xxGET /") := by
+  refine ⟨⟨rfl, by decide, by decide, by decide, by decide, by decide⟩, by decide⟩
+
 end Htp.C03
